@@ -435,6 +435,19 @@ def check(ctx):
     from .c10 import cancellation_passes_through as _cpt
     _cpt(ctx.borrowed("I13", "C10"), repo, "R4")
 
+    ctx.rule("I14", "a reset can be repeated: async_reset disconnects the facade first and forgets it last, with client callbacks awaited in between - a reset that was cancelled there, or a second reset that overlaps the first, disconnects the SAME facade again. On the awaitable facades built for the richest pair of every platform, disconnect() called twice completes twice - a disconnect that takes back its own observers one by one (list.remove) raises ValueError the second time, and that reset, and every later one, aborts on its first step: facade, spa and tasks stay, the state never returns to IDLE")
+    from ..buildmodel import disconnect_twice as _dt14
+    from ..packs import tables as _tables14
+    n14 = 0
+    for (plat_, cs_, ls_), (r_, out_) in sorted(_dt14(repo, _tables14(repo)).items()):
+        if r_ is not None:
+            continue      # a pair whose facade cannot be built is C11's finding
+        n14 += 1
+        ctx.ob("I14", f"GeckoAsyncFacade::{plat_}::disconnect-twice", out_ is None,
+               f"GeckoAsyncFacade built on ({cs_}, {ls_}): {out_} - a reset that finds the facade already disconnected once aborts before it forgets anything", repo.method("GeckoAsyncFacade", "disconnect").loc,
+               sample={"rule": "I14", "platform": plat_} if plat_.startswith("inyt") else None)
+    ctx.floor("I14", "facades disconnected twice", n14, 8)
+
     # ---- all state assignments in the manager class ---------------------------------
     man = repo.cls(MAN)
     # the manager's methods wherever the hierarchy keeps them (mixins of the package included; AsyncTasks is the task
